@@ -88,10 +88,22 @@ def run(ctx):
         why = "exits %d, variants %d" % (len(exs), len(variants))
         if ok_n:
             cond = ("istrue", ("call", "core::slice::<impl [u8]>::ends_with", (sarg, NUL)))
+
+            def same_test(f):
+                """`s ends with a NUL byte`: s.ends_with(&[0])  or  s.last() == Some(&0)  (std: last() is the final element, Option<&u8>
+                equality compares the bytes)"""
+                if f == cond:
+                    return True
+                if f[0] == "istrue" and f[1][0] == "call" and f[1][1] == "<core::option::Option<&u8> as core::cmp::PartialEq>::eq":
+                    a_, b_ = [SEL.unref(x) for x in f[1][2]]
+                    for (x, y) in ((a_, b_), (b_, a_)):
+                        if x == ("call", "core::slice::<impl [u8]>::last", (sarg,)) and y[0] == "cs" and len(y) == 4 and y[2] == "Some" and y[3] == (("ptrto", 0),):
+                            return True
+                return False
             for own, pcs in variants:
-                if own == [cond]:
+                if len(own) == 1 and same_test(own[0]):
                     with_nul = pcs
-                elif own == [("not", cond)]:
+                elif len(own) == 1 and own[0][0] == "not" and same_test(own[0][1]):
                     without = pcs
             nfix = len(fixed)
             good = with_nul is not None and without is not None and with_nul[nfix:] == [sarg] and without[nfix:] == [sarg, NUL] and with_nul[:nfix] == without[:nfix]
